@@ -1,5 +1,15 @@
 #!/bin/sh
-# Build the framework from files on disk only (offline).
+# Build the framework from files on disk only (offline): executor against /repo's working tree,
+# parse every TLA+ module, oracle self-test, RFC anchor.
 set -e
 cd "$(dirname "$0")"
-exit 0
+export CARGO_NET_OFFLINE=true
+(cd executor && cargo build --release --offline 2>&1 | tail -2)
+mkdir -p out
+for m in spec/*.tla; do
+  (cd spec && java -cp /opt/veriftools/tla/tla2tools.jar:/opt/veriftools/tla/CommunityModules-deps.jar tla2sany.SANY "$(basename "$m")") > out/sany.log 2>&1 || { cat out/sany.log; echo "SANY failed on $m"; exit 1; }
+  if grep -q "Semantic errors\|Parse Error\|\*\*\* Errors" out/sany.log; then cat out/sany.log; echo "SANY failed on $m"; exit 1; fi
+done
+python3 oracle/selftest.py
+python3 -m driver.anchor
+echo "setup: OK"
